@@ -450,7 +450,7 @@ def replay(pid: str, path: str) -> int:
               f"({res['digest']} vs {data['history_digest']}): the code under test differs from the recording")
         print(f"VIOLATION property={pid} replay={path}")
         return 1
-    print(f"REPLAY-MISMATCH: {want['tag']} did not reproduce (tags now: {sorted({v['tag'] for v in res['violations']})})")
+    print(f"NOT-REPRODUCED: {want['tag']} does not occur on this tree (tags now: {sorted({v['tag'] for v in res['violations']})})")
     return 2 if res["violations"] else 0
 
 
